@@ -211,11 +211,27 @@ Proof.
     + exists 6%nat, 2%nat, (ex_q 12). repeat split; try lia; try reflexivity; nobetween.
 Qed.
 
-(* 5. All of them complete.  The goroutine structure read off transport.go is
-   the repaired one (a dedicated writer goroutine; the owner loop never blocks
-   outside its select) ... *)
-Theorem C09_flow_structure : gen_owner_loop_writes = false.
-Proof. reflexivity. Qed.
+(* 5. All of them complete.  The goroutine structure read off transport.go and
+   serveconn.go is the one Model/Flow.v abstracts in its [Fixed] variant: the
+   owner loop only selects (a dedicated goroutine writes; waking a caller is a
+   buffered send), reader/serve loop/handlers/writer hand over by rendezvous in
+   the places the step relation says ... *)
+Definition flow_structure_ok : bool :=
+  negb gen_owner_loop_writes
+  && forallb (fun f => snd f) gen_flow_facts
+  && Nat.eqb (List.length gen_flow_facts) 10
+  (* waking the caller never blocks the owner loop *)
+  && match assoc "fcallRequest.response" gen_flow_chan_caps with Some n => N.leb 1 n | None => false end
+  && match assoc "fcallRequest.err" gen_flow_chan_caps with Some n => N.leb 1 n | None => false end
+  (* every hand-off channel of Flow.step exists.  Their capacities are not constrained: Flow.step treats
+     them as rendezvous, the most blocking reading; capacity only adds enabled hand-offs (proved for the
+     connection's capacity [cap], which C09_complete quantifies over) *)
+  && forallb (fun ch => match assoc ch gen_flow_chan_caps with Some _ => true | None => false end)
+       ["transport.requests"; "handle.responses"; "handle.writes"; "handle.failed";
+        "serve.requests"; "serve.responses"; "serve.completed"].
+
+Theorem C09_flow_structure : flow_structure_ok = true.
+Proof. vm_compute. reflexivity. Qed.
 Print Assumptions C09_flow_structure.
 
 (* ... and for that structure, from n concurrent calls, over a connection of
